@@ -327,7 +327,10 @@ class Mon:
             return not self.isin(q, x, self.layout_keys)
         if self.absorbing:
             # weaker exception for layouts with absorbing: the fired mapping is not decided by rule R
-            norep_ok = acted and kind == 'Pressed' and any(m['rep'][0] != 'Normal' and q.keq(m['frm'][-1], k) for m in self.maps)
+            # A duplicate press of a key that some mapping absorbs is a fresh press for the mapper (it deliberately forgets an
+            # absorbed key although it is physically held), so it may fire a no-repeat mapping (11.4, same reason as the C07 clause).
+            absorbable = any(self.isin(q, k, m['absb']) for m in self.maps if m['absb'])
+            norep_ok = (acted or absorbable) and kind == 'Pressed' and any(m['rep'][0] != 'Normal' and q.keq(m['frm'][-1], k) for m in self.maps)
         else:
             norep_ok = norep_fire
         for kd, key in evs:
